@@ -168,10 +168,26 @@ func c11Unit(j *Job, u *JobUnit) error {
 			outDefault, _ := NewMessage(m.Out)
 			f.handler = func(context.Context, string, proto.Message) (proto.Message, error) { return outDefault, nil }
 			cellBase := fmt.Sprintf("%s,rpc=%s.%s,decoder=%s", u.Cell, js.Name, m.Name, map[bool]string{true: "generated", false: "protojson"}[custom])
+			var judgeF func(ct, class string, body []byte, chunked bool)
 			judge := func(ct, class string, body []byte) {
+				judgeF(ct, class, body, false)
+				// the same body with unknown length (chunked transfer): small strings and all mutations
+				if strings.HasPrefix(class, "mut_") || strings.HasPrefix(class, "pb_") || (strings.HasPrefix(class, "tokens_len") && len(body) <= 2) || (strings.HasPrefix(class, "bytes_len") && len(body) <= 1) {
+					judgeF(ct, class, body, true)
+					if ct == "application/x-protobuf" {
+						judgeF("application/octet-stream", class, body, true)
+					}
+				}
+			}
+			judgeF = func(ct, class string, body []byte, chunked bool) {
 				f.reset()
-				ex, err := f.wire.Do(m.Verb, m.Path, http.Header{"Content-Type": {ct}}, body)
-				cell := cellBase + ",ct=" + map[string]string{"application/json": "json", "application/x-protobuf": "proto", "text/plain": "other"}[ct] + "#" + class
+				send := f.wire.Do
+				framing := ""
+				if chunked {
+					send, framing = f.wire.DoChunked, ",framing=chunked"
+				}
+				ex, err := send(m.Verb, m.Path, http.Header{"Content-Type": {ct}}, body)
+				cell := cellBase + ",ct=" + map[string]string{"application/json": "json", "application/x-protobuf": "proto", "application/octet-stream": "octet", "text/plain": "other"}[ct] + framing + "#" + class
 				if err != nil {
 					t.viol(cell, "no_response", err.Error(), nil)
 					return
@@ -211,7 +227,7 @@ func c11Unit(j *Job, u *JobUnit) error {
 					t.hit(cellBase, "dispatched_empty_body", false)
 					return
 				}
-				if ct == "application/x-protobuf" {
+				if ct == "application/x-protobuf" || ct == "application/octet-stream" {
 					ref := probe.ProtoReflect().New().Interface()
 					if err := proto.Unmarshal(body, ref); err != nil {
 						bad("undecodable_dispatched")
